@@ -468,3 +468,19 @@ def _(I, mp): return len(I.deref(mp).d)
 
 @summary("<&str as Borrow>::borrow", "<str as Borrow>::borrow", "<&str as AsRef>::as_ref", "<str as AsRef>::as_ref", "<&str as Deref>::deref")
 def _(I, s): return as_str(I, s)
+
+
+@summary("String::from_utf8", "alloc::string::String::from_utf8")
+def _(I, v):
+    """Ok(String) iff the bytes are well-formed UTF-8 (forks on the validity condition)"""
+    from progsym import utf8_constraints
+    bs = list(v.f)
+    if not any(is_sym(b) for b in bs):
+        try:
+            bytes(bs).decode("utf-8"); return ok(VecObj(bs, "String"))
+        except UnicodeDecodeError:
+            return err(Agg([v], "FromUtf8Error"))
+    sym = [b if is_sym(b) else z3.BitVecVal(b, 8) for b in bs]
+    c = utf8_constraints(sym)
+    if I.W.branch(c[0] if c else True): return ok(VecObj(bs, "String"))
+    return err(Agg([v], "FromUtf8Error"))
